@@ -21,7 +21,9 @@ LEAVES = {
 }
 ALLOWS = "precis_core::stringclasses::StringClass::allows"
 STABILIZE = "precis_core::profile::stabilize"
-LAZY_GET = "lazy_static::lazy::Lazy::<T>::get"
+from . import oncecell  # noqa: E402
+
+LAZY_GET = oncecell.LAZY_STATIC_GET
 
 PROFILES = {
     "UsernameCaseMapped": ("precis_profiles::usernames::UsernameCaseMapped", "precis_core::stringclasses::IdentifierClass"),
@@ -71,11 +73,8 @@ class PipeWorld(OracleWorld):
             return ip.none() if ans == "None" else ip.some(Sym(("pos", s.tag), "usize"))
         if p == STABILIZE:
             return self.stabilize(m, st, callee, args)
-        if p == LAZY_GET:
-            r = m.call_value(st, args[1], [], term)
-            if isinstance(r, tuple) and r and r[0] is ip.INLINE:
-                return (ip.INLINE, r[1], r[2], lambda mm, ss, v: Ref(("val", v)))
-            return Ref(("val", r))
+        if p in oncecell.ALL:
+            return oncecell.access(m, st, callee, args, term)
         r = OracleWorld.call(self, m, st, callee, args, term)
         if r is None and p not in m.models and not self.prog.is_ws(p) and not (p in self.prog.bodies and m.ext_simple(p)) and not callee.get("virtual"):
             raise UnexpectedCall("calls %s, which is not a step of the specified pipeline (every transforming or inspecting step must be one of the profile's rules)" % callee["full"])
